@@ -12,6 +12,9 @@ TRUST = ["pyvc engine (AST interpreter of the real sources, VC generation); z3/c
 
 
 def run(ses):
+    from pyvc import frame as _frame
+
+    _frame.purity_obligation(ses)
     records.check_unit(ses, "leader", ["table", "frame"])
     from props import analyses
 
